@@ -115,6 +115,8 @@ def validation_part(ctx):
                 seqs, kw, s2 = concrete_args(argc, v)
                 if has2:
                     kw["seqs2"] = s2
+                if v % 2 == 1 or (argc["seqs"] == "empty" and v % 3 == 0) or (argc["output_type"] in ("unknown", "none") and v % 2 == 0 and name == "kdtree"):
+                    kw["custom_distance"] = "hamming"           # the same classes are invalid whatever the distance mode
                 try:
                     fn(seqs, **kw)
                     raised = False
